@@ -9,6 +9,21 @@
 //   Unchecked      : run, answer ignored.
 // After every in-contract operation the real state is compared with the oracle (I0) and the
 // invariants I1..I3 of the property are checked on the real log.
+//
+// `--mode monitor --cases f1,f2,..` [--threads n]   MONITOR-OK cases=N | FAIL raftlog <shrunk case> + REASON
+// `--mode monitor --selftest 1`                     seeded faults must be caught: SELFTEST-OK
+// `--mode monitor --fault 1|2|3 --cases ..`         diagnostic: whole run with a seeded fault (must FAIL)
+//
+// Contract notes (where the caller contract had to be made precise, see the Out(..) reasons):
+//  * restore(i,t) with i == committed and a known, different term at i contradicts a committed
+//    entry (raft safety) -> out of contract; restore below the compacted base (restart window) too.
+//  * stable_snap is in contract only when storage holds exactly this snapshot (index AND term) and
+//    the stable part of the log.
+//  * a storage compaction at or below storage's first index is the documented no-op and always in
+//    contract; with a pending snapshot a compaction only changes what is durable.
+//  * storage answers the term of the last snapshot it was given even after compacting past it
+//    (`d_snap`), which maybe_persist can observe.
+//  * I3 is not checked across Restart (unstable entries are lost and the commit index restarts).
 
 #[derive(Clone, Copy, PartialEq, Debug)]
 enum Fault {
@@ -478,15 +493,15 @@ fn case_numbers(h: &Hdr, ops: &[Op]) -> String {
 }
 
 /// first failing case of a file: (shrunk case numbers, reason)
-fn monitor_file(path: &str, st: &mut Stats) -> Option<(String, String)> {
+fn monitor_file(path: &str, fault: Fault, st: &mut Stats) -> Option<(String, String)> {
     let text = std::fs::read_to_string(path).unwrap_or_else(|e| panic!("cannot read {}: {}", path, e));
     for line in text.lines() {
         if let Some((h, ops)) = decode_case(line) {
-            if let Some((k, reason)) = monitor_case(&h, &ops, Fault::None, st) {
+            if let Some((k, reason)) = monitor_case(&h, &ops, fault, st) {
                 // shrink: shortest failing prefix (the run is deterministic: it ends with the failing op)
                 let best = &ops[..(k + 1).min(ops.len())];
                 let mut scratch = Stats::default();
-                let reason = monitor_case(&h, best, Fault::None, &mut scratch).map(|x| x.1).unwrap_or(reason);
+                let reason = monitor_case(&h, best, fault, &mut scratch).map(|x| x.1).unwrap_or(reason);
                 return Some((case_numbers(&h, best), reason));
             }
         }
@@ -529,6 +544,8 @@ fn selftest() {
 
 fn monitor(args: &[String]) {
     if arg(args, "--selftest", "0") == "1" { return selftest(); }
+    // diagnostic only: run the whole monitor with one of the selftest's seeded faults (must then FAIL)
+    let fault = match arg(args, "--fault", "0").as_str() { "1" => Fault::PerturbMaybeAppend, "2" => Fault::OracleKeepsSuffix, "3" => Fault::UncheckedTruncate, _ => Fault::None };
     let mut files: Vec<String> = arg(args, "--cases", "").split(',').filter(|x| !x.is_empty()).map(|x| x.to_string()).collect();
     files.sort();
     let nthreads: usize = arg(args, "--threads", "0").parse().unwrap();
@@ -545,7 +562,7 @@ fn monitor(args: &[String]) {
                 if i >= files.len() { break; }
                 if i > min_fail.load(Ordering::SeqCst) { continue; } // a lexicographically earlier file already failed
                 let mut st = Stats::default();
-                let r: Res = catch(|| monitor_file(&files[i], &mut st)).map(|f| (st.clone(), f));
+                let r: Res = catch(|| monitor_file(&files[i], fault, &mut st)).map(|f| (st.clone(), f));
                 if !matches!(r, Ok((_, None))) { min_fail.fetch_min(i, Ordering::SeqCst); }
                 results.lock().unwrap()[i] = Some(r);
             });
